@@ -285,7 +285,64 @@ def boundary_vectors(rng, n):
     return vs
 
 
+def step_level(ctx):
+    """the update as the solver performs it, retries included: `adaptive_euler_step` on a real device must return
+    (psi', |psi'|^2, dt) that solve the site equation FOR THE dt IT REPORTS (the dt that is recorded, advances the
+    clock and feeds the next step-size choice); refusals come from a strong random state and from a schedule."""
+    import zoo
+    import runs
+    from tdgl.solver.solver import TDGLSolver
+
+    rng = ctx.rng
+    first = None
+    dev = zoo.make_device("bar_hole", rng, max_edge_length=1.0, gamma=float(rng.choice([1.0, 10.0])))
+    for adaptive, retries_forced in ((True, 0), (True, 1), (True, 2), (False, 0)):
+        opts = runs.options(adaptive=adaptive, dt_init=1e-3, dt_max=0.5, max_solve_retries=6, adaptive_time_step_multiplier=float(rng.choice([0.25, 0.5])))
+        solver = TDGLSolver(device=dev, options=opts, applied_vector_potential=float(rng.uniform(0.2, 1.5)))
+        n = len(dev.mesh.sites)
+        orig = TDGLSolver.__dict__["solve_for_psi_squared"]
+        state = dict(left=0, calls=[])
+
+        def wrapped(**kw):
+            state["calls"].append(float(kw["dt"]))
+            if state["left"] > 0:
+                state["left"] -= 1
+                return None
+            return orig.__func__(**kw)
+
+        TDGLSolver.solve_for_psi_squared = staticmethod(wrapped)
+        try:
+            for rep in range(6 if ctx.quick else 40):
+                amp = float(rng.choice([0.3, 1.0, 1.3]))
+                psi = amp * (rng.normal(size=n) + 1j * rng.normal(size=n)) / np.sqrt(2)
+                a = np.abs(psi) ** 2
+                mu = rng.normal(size=n) * rng.choice([0.0, 1.0, 20.0])
+                eps = np.full(n, 1.0)
+                dt0 = float(rng.choice([1e-3, 5e-2, 0.4])) if adaptive else 1e-3
+                state["left"], state["calls"] = retries_forced, []
+                try:
+                    p2, x2, dt_rep = solver.adaptive_euler_step(0, psi, a, mu, eps, dt0)
+                except RuntimeError:
+                    ctx.count("step_level_raised")
+                    continue
+                nret = len(state["calls"]) - 1
+                ctx.case(("step", adaptive, retries_forced, rep, V.bits(dt_rep)), nontrivial=nret > 0)
+                ctx.count(f"step_level_retries={min(nret, 3)}")
+                v = dict(psi=psi, abs_sq=a, mu=mu, eps=eps, gamma=solver.gamma, u=solver.u, dt=float(dt_rep), M=solver.operators.psi_laplacian)
+                z, w, b, disc, az2, aw2 = oracle_zw(v)
+                bad = check_answer(v, (p2, x2), np.arange(n), z, w, b, disc, az2, aw2)
+                if bad:
+                    i, what = bad[0]
+                    rp = dict(adaptive=adaptive, forced_refusals=retries_forced, attempts=state["calls"], reported_dt=float(dt_rep), site=int(i), detail=what)
+                    ctx.fail("step:answer-does-not-solve-for-reported-dt", f"adaptive_euler_step reports dt={dt_rep} after attempts {state['calls']} but its answer does not solve the site equation for that dt: {what}", rp)
+                    first = first or dict(key="step:answer-does-not-solve-for-reported-dt", what=what, **rp)
+        finally:
+            TDGLSolver.solve_for_psi_squared = orig
+    return first
+
+
 def run(ctx):
+    step_level(ctx)
     nvec = 40 if ctx.quick else 1500
     n = 256 if ctx.quick else 512
     for v in boundary_vectors(ctx.rng, n):
@@ -295,6 +352,9 @@ def run(ctx):
 
 
 def search(ctx):
+    f0 = step_level(ctx)
+    if f0 is not None:
+        return f0
     rng = np.random.default_rng(ctx.seed + 7919)
     budget = 30 if ctx.quick else 600
     import time
@@ -308,6 +368,12 @@ def search(ctx):
 
 
 def replay(payload):
+    if "input" not in payload:
+        ctx = V.Ctx("C02", "quick", int(payload.get("seed", 0)))
+        try:
+            return step_level(ctx) is None
+        finally:
+            ctx.cleanup()
     r = payload["input"]
     v = vector_from_replay(r)
     z, w, b, disc, az2, aw2 = oracle_zw(v)
